@@ -137,6 +137,13 @@ SV_SET = {
     "pyplug": [("radius", 22.0), ("thick", 3.0)],
     "allpd": [("r", 12.0), ("r", -10.0)],
 }
+SV_ARRAY = {
+    "sphere": [("radius", [40.0, 50.0, 60.0, 75.0], [3.0, 11.0, 7.0, 2.0])],
+    "cylinder": [("length", [300.0, 400.0, 500.0], [1.0, 4.0, 2.0]), ("radius", [15.0, 20.0, 30.0], [5.0, 3.0, 1.0])],
+    "pyplug": [("radius", [30.0, 40.0, 55.0], [2.0, 5.0, 1.0])],
+    "allpd": [("r", [10.0, 20.0, 40.0, 80.0], [1.0, 3.0, 3.0, 1.0])],
+    "sphere@hardsphere": [("radius", [40.0, 50.0, 65.0], [1.0, 2.0, 1.0])],
+}
 # dispersity settings written straight through setParam("par.width", ...), the
 # way the SasView GUI does it (no set_dispersion call in between)
 for _m, _p in (("sphere", "radius"), ("cylinder", "radius"), ("cylinder", "length"),
@@ -272,6 +279,17 @@ def _sv_class(state, name):
 def _sv_apply(inst, cfgop):
     if cfgop[0] == "set":
         inst.setParam(cfgop[1], cfgop[2])
+    elif cfgop[0] == "array":
+        # a user-tabulated distribution: the arrays belong to the caller
+        _, par, values, wts = cfgop
+        from sasmodels import weights
+        v = np.array(values, "d")
+        w = np.array(wts, "d")
+        disp = weights.ArrayDispersion()
+        disp.set_weights(v, w)
+        inst.set_dispersion(par, disp)
+        held = getattr(inst, "_verif_caller_arrays", [])
+        inst._verif_caller_arrays = held + [v, w]
     elif cfgop[0] == "disp":
         _, par, dtype, npts, width = cfgop
         from sasmodels import weights
@@ -369,13 +387,18 @@ def eval_request(state, req):
 
 def _sv_eval(state, inst, qkey, fn):
     qv = _q(qkey)
+    snap = qv + list(getattr(inst, "_verif_caller_arrays", []))
     if fn == "evalDistribution":
         arg = qv[0] if len(qv) == 1 else qv
-        return _evaluate(state, lambda: inst.evalDistribution(arg), qv)
+        return _evaluate(state, lambda: inst.evalDistribution(arg), snap)
     if fn == "calculate_Iq":
-        return _evaluate(state, lambda: inst.calculate_Iq(*qv)[0], qv)
+        return _evaluate(state, lambda: inst.calculate_Iq(*qv)[0], snap)
     if fn == "composition":
-        return _evaluate(state, lambda: inst.calc_composition_models(qv[0]), qv)
+        return _evaluate(state, lambda: inst.calc_composition_models(qv[0]), snap)
+    if fn == "run":
+        return _evaluate(state, lambda: inst.run(float(qv[0][1])), snap)
+    if fn == "runXY":
+        return _evaluate(state, lambda: inst.runXY([float(qv[0][0]), float(qv[0][1])]), snap)
     raise ValueError(fn)
 
 
@@ -417,6 +440,8 @@ def child_handler(state, cmd):
             _sv_apply(objs[op["s"]], ("set", op["name"], op["value"]))
         elif kind == "sv_disp":
             _sv_apply(objs[op["s"]], ("disp", op["par"], op["type"], op["npts"], op["width"]))
+        elif kind == "sv_array":
+            _sv_apply(objs[op["s"]], ("array", op["par"], op["values"], op["weights"]))
         elif kind == "sv_clone":
             objs[op["id"]] = objs[op["s"]].clone()
         elif kind == "sv_eval":
@@ -550,12 +575,15 @@ def run_history(cfg, keep_events=False):
                                   "config": list(objs[op["s"]]["config"])}
                 if objs[op["s"]]["config"]:
                     probe("clone_after_setParam")
-            elif kind in ("sv_set", "sv_disp"):
+            elif kind in ("sv_set", "sv_disp", "sv_array"):
                 if op["s"] not in objs:
                     continue
                 c = ("set", op["name"], op["value"]) if kind == "sv_set" else \
+                    ("array", op["par"], op["values"], op["weights"]) if kind == "sv_array" else \
                     ("disp", op["par"], op["type"], op["npts"], op["width"])
                 objs[op["s"]]["config"].append(c)
+                if kind == "sv_array":
+                    probe("array_distribution_set")
             ref = op.get("k") or op.get("d") or op.get("s") or op.get("m")
             if ref is not None and ref not in objs:
                 continue              # its creator was dropped by minimisation
@@ -762,13 +790,18 @@ def gen_history(w, n_ops):
             elif rr < 0.4 and SV_DISP.get(name):
                 par, typ, npts, width = w.choice(SV_DISP[name])
                 ops.append({"op": "sv_disp", "s": s["id"], "par": par, "type": typ, "npts": npts, "width": width})
-            elif rr < 0.5:
+            elif rr < 0.46 and SV_ARRAY.get(name):
+                par, vals, wts = w.choice(SV_ARRAY[name])
+                ops.append({"op": "sv_array", "s": s["id"], "par": par, "values": vals, "weights": wts})
+            elif rr < 0.54:
                 op = {"op": "sv_clone", "id": new_id("s"), "s": s["id"], "model": name}
                 ops.append(op)
                 svs.append(op)
             else:
                 two_d = w.random() < 0.25 and name in ("sphere", "cylinder", "core_multi_shell")
-                fn = w.choice(["evalDistribution", "evalDistribution", "calculate_Iq"])
+                fn = w.choice(["evalDistribution", "evalDistribution", "calculate_Iq", "run", "runXY"])
+                if two_d and fn in ("run", "runXY"):
+                    fn = "evalDistribution"
                 if name == "sphere@hardsphere" and w.random() < 0.3:
                     fn, two_d = "composition", False
                 ops.append({"op": "sv_eval", "s": s["id"], "q": w.choice(Q2D if two_d else Q1D), "fn": fn})
@@ -859,7 +892,7 @@ MINIMISE_TOTAL = 300
 EXPECTED_PROBES = ["same_kernel_other_pars", "mono_after_poly_same_object", "magnetic_toggle_same_object",
                    "eval_after_failed_eval", "py_kernel_second_call", "empty_mesh_after_nonempty",
                    "clone_after_setParam", "two_models_share_process", "callFq_with_mode_key",
-                   "identical_request_repeated", "fresh_process_run", "threads_lazy_build_contended",
+                   "identical_request_repeated", "fresh_process_run", "array_distribution_set", "threads_lazy_build_contended",
                    "threads_lock_contended"]
 
 
